@@ -111,6 +111,22 @@ def run(ctx):
                 except Exception as e:      # e.g. embedded NUL rejected by os.path on some platforms
                     o, c = -1, [type(e).__name__]
                 extra.append(dict(root=comps_of(os.path.abspath(root)), name=nm.encode("unicode_escape").decode(), out=o, comps=c))
+        # call histories: the same relative root used again after the working directory changed (a daemon's chdir, a second site served
+        # from another tree) - "the root" is what the root argument denotes when the call is made
+        here = os.getcwd()
+        try:
+            sites = [os.path.join(wd, "site_a"), os.path.join(wd, "site_b"), os.path.join(wd, "site_a", "static")]
+            for d in sites:
+                os.makedirs(os.path.join(d, "static"), exist_ok=True)
+            sample = [substitute(concretise(n), "static") for n in names[:: max(1, len(names) // (40 if ctx.quick else 400))]] + ["index.html", "a/b", ""]
+            for cwd in sites + sites[:1]:
+                os.chdir(cwd)
+                for root in ("static", "./static", "static/../static", "."):
+                    for nm in sample:
+                        o, c = outcome(H, root, nm)
+                        extra.append(dict(root=comps_of(os.path.abspath(root)), name="cwd=%s root=%s name=%s" % (os.path.relpath(cwd, wd), root, nm), out=o, comps=c))
+        finally:
+            os.chdir(here)
         obs = os.path.join(wd, "obs.json")
         json.dump(dict(roots=rootc, out=out, comps=comps, extra=extra), open(obs, "w"))
         r = ctx.mc("Obs_PathJoin", "INIT ObsInit\n" + base + "INVARIANT RowOK\nINVARIANT Complete\nALIAS Where\nCHECK_DEADLOCK FALSE\n",
